@@ -73,4 +73,9 @@
 #include "efuns_opcode.h"
 #endif
 
+/* INT64_MIN / -1 and INT64_MIN % -1 overflow (SIGFPE on x86): a division by -1 is done without dividing.
+ * The quotient wraps like every other LPC integer operation. */
+#define LPC_INT_DIV(a, b)	(((b) == -1) ? (int64_t)(0 - (uint64_t)(a)) : ((a) / (b)))
+#define LPC_INT_MOD(a, b)	(((b) == -1) ? (int64_t)0 : ((a) % (b)))
+
 #include "stem.h"
